@@ -39,7 +39,7 @@ STREAMS = ['unmarshal-valid-truncated-mutated', 'message-truncated-mutated', 'ly
 THEOREMS = ['tables_good', 'unmarshal_fuel_adequate', 'unmarshal_steps_linear', 'unmarshal_work_linear',
             'unmarshal_depth_bounded', 'result_size_bounded', 'result_chars_bounded', 'unmarshal_bounded',
             'parseMessage_total', 'parseMessage_work_linear', 'prefix_array_loop_never_terminates',
-            'cost_agrees_with_code', 'cost_simulates_code', 'code_fuel_adequate', 'code_fuel_independent',
+            'cost_agrees_with_code', 'cost_simulates_code', 'code_fuel_adequate', 'code_fuel_monotone', 'code_fuel_independent',
             'code_result_bounded']
 TRUSTED_BASE = [
     'Python semantics mirrored by hand in Wire/Cost.lean and validated only by the streams: struct.unpack_from '
@@ -289,6 +289,7 @@ def guarded(counter, budget, fn, room=None):
         cap = min(cap, hard)
     resource.setrlimit(resource.RLIMIT_AS, (cap, hard))
     t0 = time.process_time()
+    own = False         # the exception is the tree's own MarshallingError (or a subclass of it)
     try:
         try:
             v = fn()
@@ -302,6 +303,7 @@ def guarded(counter, budget, fn, room=None):
             v, st = None, 'MEMORY'
         except Exception as e:      # RecursionError is an Exception
             v, st = None, 'err:' + exc_name(e)
+            own = any(k.__name__ == 'MarshallingError' for k in type(e).__mro__)
     finally:
         resource.setrlimit(resource.RLIMIT_AS, (soft, hard))
         signal.setitimer(signal.ITIMER_REAL, 0)
@@ -309,7 +311,7 @@ def guarded(counter, budget, fn, room=None):
         sys.setrecursionlimit(old_limit)
         counter.budget = None
     return {'status': st, 'steps': counter.n, 'work': counter.work, 'value': v, 'cpu': time.process_time() - t0,
-            'sliced': SLICED[0], 'nested': counter.nested, 'reason': counter.reason}
+            'sliced': SLICED[0], 'nested': counter.nested, 'reason': counter.reason, 'own_error': own}
 
 
 # ------------------------------------------------------------------ encoding of cases for the driver
@@ -352,6 +354,27 @@ def c01_line(c):
 
 
 C01_NAMES = {'UnicodeError': 'UnicodeDecodeError'}
+
+
+def lean_closure(lean, root):
+    """source files of the transitive imports of module `root` inside this package (TxdbusModel.*, Driver.*)."""
+    import re
+    seen, todo, files = set(), [root], []
+    while todo:
+        m = todo.pop()
+        if m in seen:
+            continue
+        seen.add(m)
+        f = os.path.join(lean, *m.split('.')) + '.lean'
+        if not os.path.exists(f):
+            continue
+        files.append(f)
+        with open(f, encoding='utf-8') as fh:
+            for line in fh:
+                mm = re.match(r'\s*(?:public\s+)?import\s+([A-Za-z0-9_.]+)', line)
+                if mm and (mm.group(1).startswith('TxdbusModel.') or mm.group(1).startswith('Driver.')):
+                    todo.append(mm.group(1))
+    return files
 
 
 def c01_verdict(line):
@@ -966,8 +989,8 @@ class Runner:
 
     def locate_c01(self):
         """C01's driver (the value model as C01 / C02 run it), next to this property's own driver.  It is built by C01's
-        check, not by this one: used only when it is there and not older than the sources it is linked from (the tables
-        of the tree under test are regenerated before this harness runs)."""
+        check, not by this one: used only when it is there and not older than ANY source in the import closure of
+        Driver/C01.lean (the tables of the tree under test are regenerated before this harness runs)."""
         ctx = self.ctx
         try:
             bindir = os.path.dirname(ctx.driver_path())
@@ -977,9 +1000,8 @@ class Runner:
                 ctx.note('advisory: drv_c01 is not built; the cross-run through C01\'s driver is skipped '
                          '(the value model is still run by this property\'s own driver)')
                 return None
-            srcs = [os.path.join(lean, 'TxdbusModel', 'Gen', 'Wire.lean'), os.path.join(lean, 'TxdbusModel', 'Wire', 'Code.lean'),
-                    os.path.join(lean, 'Driver', 'WireOps.lean')]
-            newer = [os.path.basename(f) for f in srcs if os.path.exists(f) and os.path.getmtime(f) > os.path.getmtime(exe)]
+            srcs = lean_closure(lean, 'Driver.C01')
+            newer = [os.path.relpath(f, lean) for f in srcs if os.path.getmtime(f) > os.path.getmtime(exe)][:4]
             if newer:
                 ctx.note('advisory: drv_c01 is older than %s; the cross-run through C01\'s driver is skipped '
                          '(the value model is still run by this property\'s own driver)' % ', '.join(newer))
@@ -1101,7 +1123,7 @@ class Runner:
             fn = lambda: self.message.parseMessage(data, fds)
         r = guarded(self.counter, bound + 1, fn)
         obs = {'status': r['status'], 'steps': r['steps'], 'bound': bound, 'work': r['work'], 'cpu': r['cpu'],
-               'sliced': r['sliced']}
+               'sliced': r['sliced'], 'own_error': r['own_error']}
         if r['reason'] == 'splitter':
             obs['splitter_generators'] = r['nested']
         if r['status'] == 'ok':
@@ -1287,7 +1309,14 @@ class Runner:
             if code_nodes != obs['nodes']:         # PyVal.nodes / nodesList (Wire/CostValue.lean) vs nodes() above
                 bad.append('nodes')
         elif code[0] != st:
-            ctx.stat('x-error-class-drift %s (models %s)' % (st, code[0]))
+            # Exception class (theorem: the two models agree on it; here: do they agree with the code?).  Allow-list of
+            # hardenings: the tree answers its OWN MarshallingError (or a subclass) where the models say a built-in
+            # exception escapes (struct.error, IndexError, KeyError, TypeError, RuntimeError, UnicodeDecodeError).  Any
+            # other difference of class is a disagreement of this stream.
+            if obs.get('own_error'):
+                ctx.stat('x-error-class-hardened %s (models %s)' % (st, code[0]))
+            else:
+                bad.append('class')
         if bad:
             ctx.disagree(XSTREAM, cj, xline, {k: v for k, v in obs.items()},
                          detail='value model (and cost model) vs implementation: ' + ','.join(bad))
